@@ -947,6 +947,8 @@ def _split(url):
 
 class PeerT:
     """Threaded client <-> threaded server under one scheduler."""
+    lat = None      # callable -> one-way network latency (virtual seconds)
+
     def __init__(self, sim):
         self.sim = sim
         self.sched = sim.sched
@@ -954,10 +956,16 @@ class PeerT:
     def now(self):
         return self.sched.now
 
+    def _hop(self):
+        d = self.lat() if self.lat is not None else 0
+        if d:
+            vsched.vsleep(self.sched, d)
+
     def http(self, method, url, headers, body, timeout):
         u, q = _split(url)
         if isinstance(body, str):
             body = body.encode('utf-8')
+        self._hop()
         ev = vsched.VEvent(self.sched)
         hd = {'Host': u.netloc}
         hd.update(headers or {})
@@ -972,10 +980,12 @@ class PeerT:
             raise PeerRefused('read timed out')
         if t.exc is not None:
             raise PeerRefused('server error %r' % (t.exc,))
+        self._hop()
         return Resp(t.code, t.body or b'')
 
     def ws_connect(self, url, headers, timeout):
         u, q = _split(url)
+        self._hop()
         ws, t = self.sim.ws_request(q, dict(headers or {}, Host=u.netloc))
         ev = vsched.VEvent(self.sched)
         inbox = vsched.VQueue(self.sched)
@@ -990,18 +1000,41 @@ class PeerT:
         if not ws.accepted:
             raise PeerRefused('websocket handshake refused (%r)' % (
                 t.status,))
-        return PeerTConn(ws, inbox)
+        return PeerTConn(ws, inbox, self)
 
 
 class PeerTConn:
-    def __init__(self, ws, inbox):
+    def __init__(self, ws, inbox, peer=None):
         self.ws = ws
         self.inbox = inbox
+        self.peer = peer
 
     def send(self, frame):
         if self.ws.server_closed:
             raise WsClosed()
-        self.ws.send(frame)
+        d = self.peer.lat() if (self.peer is not None and
+                                self.peer.lat is not None) else 0
+        if not d and not getattr(self, 'pump', None):
+            self.ws.send(frame)
+            return
+        # frames in flight: delivered after the latency, in order, without
+        # blocking the sender (a WebSocket write returns at once)
+        sched = self.peer.sched
+        if not getattr(self, 'pump', None):
+            self.flight = vsched.VQueue(sched)
+            self.last_due = 0.0
+
+            def pump():
+                while True:
+                    due, fr = self.flight.get()
+                    self.flight.task_done()
+                    if due > sched.now:
+                        vsched.vsleep(sched, due - sched.now)
+                    if not self.ws.server_closed:
+                        self.ws.send(fr)
+            self.pump = sched.spawn(pump, name='net-frames')
+        self.last_due = max(self.last_due, sched.now + d)
+        self.flight.put((self.last_due, frame))
 
     def recv(self, timeout):
         try:
@@ -1020,6 +1053,8 @@ class PeerTConn:
 
 class PeerA:
     """Asyncio client <-> asyncio server (real ASGI adapter) on one loop."""
+    lat = None
+
     def __init__(self, sim):
         self.sim = sim
         self.loop = sim.loop
@@ -1027,11 +1062,18 @@ class PeerA:
     def now(self):
         return self.loop._vnow
 
+    async def _hop(self):
+        import asyncio
+        d = self.lat() if self.lat is not None else 0
+        if d:
+            await asyncio.sleep(d)
+
     async def ahttp(self, method, url, headers, body, timeout):
         import asyncio
         u, q = _split(url)
         if isinstance(body, str):
             body = body.encode('utf-8')
+        await self._hop()
         ev = asyncio.Event()
         hd = {'Host': u.netloc}
         hd.update(headers or {})
@@ -1048,11 +1090,13 @@ class PeerA:
             raise
         if t.exc is not None:
             raise PeerRefused('server error %r' % (t.exc,))
+        await self._hop()
         return Resp(t.code, t.body or b'')
 
     async def aws_connect(self, url, headers, timeout):
         import asyncio
         u, q = _split(url)
+        await self._hop()
         ws, t = self.sim.ws_request(q, dict(headers or {}, Host=u.netloc))
         ev = asyncio.Event()
         inbox = asyncio.Queue()
@@ -1065,18 +1109,39 @@ class PeerA:
         await ev.wait()
         if not ws.accepted:
             raise PeerRefused('websocket handshake refused')
-        return PeerAConn(ws, inbox)
+        return PeerAConn(ws, inbox, self)
 
 
 class PeerAConn:
-    def __init__(self, ws, inbox):
+    def __init__(self, ws, inbox, peer=None):
         self.ws = ws
         self.inbox = inbox
+        self.peer = peer
 
     async def asend(self, frame):
+        import asyncio
         if self.ws.server_closed:
             raise WsClosed()
-        self.ws.send(frame)
+        d = self.peer.lat() if (self.peer is not None and
+                                self.peer.lat is not None) else 0
+        if not d and not getattr(self, 'pump', None):
+            self.ws.send(frame)
+            return
+        loop = self.peer.loop
+        if not getattr(self, 'pump', None):
+            self.flight = asyncio.Queue()
+            self.last_due = 0.0
+
+            async def pump():
+                while True:
+                    due, fr = await self.flight.get()
+                    if due > loop._vnow:
+                        await asyncio.sleep(due - loop._vnow)
+                    if not self.ws.server_closed:
+                        self.ws.send(fr)
+            self.pump = loop.create_task(pump())
+        self.last_due = max(self.last_due, loop._vnow + d)
+        self.flight.put_nowait((self.last_due, frame))
 
     async def arecv(self):
         item = await self.inbox.get()
